@@ -7,46 +7,50 @@ structure Pressure where
   below : Nat := 0
 deriving DecidableEq, Repr
 
-def PRESSURE_ENTER_USAGE : Nat := 70
-def PRESSURE_EXIT_USAGE : Nat := 50
-def PRESSURE_EXIT_ROUNDS : Nat := 3
+/-- `connStateJanitorPressure{EnterUsage,ExitUsage,ExitRounds}`: tuning the property does not fix; read from
+the code on every run (`cfg` op) -/
+structure PressureCfg where
+  enter : Nat := 70
+  exit : Nat := 50
+  rounds : Nat := 3
+deriving DecidableEq, Repr
 
 /-- `updateConnStateJanitorPressure`: after a janitor round that saw `usage` % of `conn_state_map` in use and
 (`ov`) a grown overflow counter, is the NEXT round aggressive? -/
-def pressureStep (st : Pressure) (ov : Bool) (usage : Nat) : Pressure :=
-  if ov || usage ≥ PRESSURE_ENTER_USAGE then ⟨true, 0⟩
+def pressureStep (cfg : PressureCfg) (st : Pressure) (ov : Bool) (usage : Nat) : Pressure :=
+  if ov || usage ≥ cfg.enter then ⟨true, 0⟩
   else if !st.active then st
-  else if usage < PRESSURE_EXIT_USAGE then
-    (if st.below + 1 ≥ PRESSURE_EXIT_ROUNDS then ⟨false, 0⟩ else ⟨true, st.below + 1⟩)
+  else if usage < cfg.exit then
+    (if st.below + 1 ≥ cfg.rounds then ⟨false, 0⟩ else ⟨true, st.below + 1⟩)
   else ⟨true, 0⟩
 
 /-- the pressure state after a sequence of rounds `(overflowDelta, usage %)` -/
-def pressureRun (st : Pressure) : List (Bool × Nat) → Pressure
+def pressureRun (cfg : PressureCfg) (st : Pressure) : List (Bool × Nat) → Pressure
   | [] => st
-  | r :: rs => pressureRun (pressureStep st r.1 r.2) rs
+  | r :: rs => pressureRun cfg (pressureStep cfg st r.1 r.2) rs
 
 end DaeVerif.C03
 
 namespace DaeVerif.C03.Props
 open DaeVerif.C03
 
-/-- **When the janitor may halve the timeouts.**  Pressure mode (the `aggressive` flag of the next round)
-is entered exactly by a round that counted a map overflow or saw `conn_state_map` at least 70 % full; while
-neither happens an inactive janitor stays in steady state along any number of rounds — where, by
-`janitor_respects_idle_timeouts`, it applies the kernel's own idle timeouts; once active it leaves only
-after 3 consecutive rounds below 50 % (a round at 50–69 % restarts the count). -/
-theorem janitor_pressure_mode :
-    (∀ st ov u, (ov = true ∨ 70 ≤ u) → (pressureStep st ov u).active = true) ∧
-    (∀ st rounds, st.active = false → (∀ r ∈ rounds, r.1 = false ∧ r.2 < 70) →
-      (pressureRun st rounds).active = false) ∧
-    (∀ st u, st.active = true → 50 ≤ u → u < 70 → pressureStep st false u = ⟨true, 0⟩) ∧
-    (∀ u1 u2 u3, u1 < 50 → u2 < 50 → u3 < 50 →
-      (pressureRun ⟨true, 0⟩ [(false, u1), (false, u2)]).active = true ∧
-      (pressureRun ⟨true, 0⟩ [(false, u1), (false, u2), (false, u3)]).active = false) := by
+/-- **When the janitor may halve the timeouts.**  For any thresholds (`enter` 70 %, `exit` 50 %, `rounds` 3 as
+shipped): pressure mode (the `aggressive` flag of the next round) is entered exactly by a round that counted
+a map overflow or saw `conn_state_map` at least `enter` % full; while neither happens an inactive janitor
+stays in steady state along any number of rounds — where, by `janitor_respects_idle_timeouts`, it applies
+the kernel's own idle timeouts; once active, a round between `exit` and `enter` restarts the count, a round
+below `exit` counts one, and the `rounds`-th such round in a row leaves pressure mode. -/
+theorem janitor_pressure_mode (cfg : PressureCfg) :
+    (∀ st ov u, (ov = true ∨ cfg.enter ≤ u) → (pressureStep cfg st ov u).active = true) ∧
+    (∀ st rounds, st.active = false → (∀ r ∈ rounds, r.1 = false ∧ r.2 < cfg.enter) →
+      (pressureRun cfg st rounds).active = false) ∧
+    (∀ st u, st.active = true → cfg.exit ≤ u → u < cfg.enter → pressureStep cfg st false u = ⟨true, 0⟩) ∧
+    (∀ b u, u < cfg.exit → u < cfg.enter →
+      pressureStep cfg ⟨true, b⟩ false u = if b + 1 ≥ cfg.rounds then ⟨false, 0⟩ else ⟨true, b + 1⟩) := by
   refine ⟨?_, ?_, ?_, ?_⟩
   · intro st ov u h
-    unfold pressureStep PRESSURE_ENTER_USAGE
-    have : (ov || decide (u ≥ 70)) = true := by
+    unfold pressureStep
+    have : (ov || decide (u ≥ cfg.enter)) = true := by
       rcases h with h | h
       · simp [h]
       · simp [h]
@@ -57,39 +61,27 @@ theorem janitor_pressure_mode :
     | cons r rs ih =>
       intro h hall
       have hr := hall r List.mem_cons_self
-      have hstep : pressureStep st r.1 r.2 = st := by
-        unfold pressureStep PRESSURE_ENTER_USAGE
-        have h1 : (r.1 || decide (r.2 ≥ 70)) = false := by
-          have : ¬ (r.2 ≥ 70) := by omega
+      have hstep : pressureStep cfg st r.1 r.2 = st := by
+        unfold pressureStep
+        have h1 : (r.1 || decide (r.2 ≥ cfg.enter)) = false := by
+          have : ¬ (r.2 ≥ cfg.enter) := by omega
           simp [hr.1, this]
         simp only [h1, Bool.false_eq_true, if_false, h, Bool.not_false, if_true]
-      show (pressureRun (pressureStep st r.1 r.2) rs).active = false
+      show (pressureRun cfg (pressureStep cfg st r.1 r.2) rs).active = false
       rw [hstep]
       exact ih st h (fun x hx => hall x (List.mem_cons_of_mem _ hx))
   · intro st u ha h50 h70
-    unfold pressureStep PRESSURE_ENTER_USAGE PRESSURE_EXIT_USAGE
-    have h1 : (false || decide (u ≥ 70)) = false := by
-      have : ¬ (u ≥ 70) := by omega
+    unfold pressureStep
+    have h1 : (false || decide (u ≥ cfg.enter)) = false := by
+      have : ¬ (u ≥ cfg.enter) := by omega
       simp [this]
-    have h2 : ¬ (u < 50) := by omega
+    have h2 : ¬ (u < cfg.exit) := by omega
     simp only [h1, Bool.false_eq_true, if_false, ha, Bool.not_true, h2]
-  · intro u1 u2 u3 h1 h2 h3
-    have step : ∀ b u, u < 50 → pressureStep ⟨true, b⟩ false u =
-        if b + 1 ≥ 3 then ⟨false, 0⟩ else ⟨true, b + 1⟩ := by
-      intro b u hu
-      unfold pressureStep PRESSURE_ENTER_USAGE PRESSURE_EXIT_USAGE PRESSURE_EXIT_ROUNDS
-      have h1 : (false || decide (u ≥ 70)) = false := by
-        have : ¬ (u ≥ 70) := by omega
-        simp [this]
-      simp only [h1, Bool.false_eq_true, if_false, Bool.not_true, hu, if_true]
-    unfold pressureRun pressureRun pressureRun pressureRun
-    dsimp only
-    rw [step 0 u1 h1]
-    simp only [show ¬ (0 + 1 ≥ 3) by decide, if_false]
-    rw [step 1 u2 h2]
-    simp only [show ¬ (0 + 1 + 1 ≥ 3) by decide, if_false]
-    refine ⟨by first | rfl | trivial, ?_⟩
-    rw [step 2 u3 h3]
-    first | rfl | trivial
+  · intro b u hu hu2
+    unfold pressureStep
+    have h1 : (false || decide (u ≥ cfg.enter)) = false := by
+      have : ¬ (u ≥ cfg.enter) := by omega
+      simp [this]
+    simp only [h1, Bool.false_eq_true, if_false, Bool.not_true, hu, if_true]
 
 end DaeVerif.C03.Props
